@@ -208,6 +208,10 @@ func main() {
 	rep := report.New("C04", "exploration")
 	rep.Rule = "(a) every schedule within the deviation bound of publisher / stalled (gated) / healthy / panicking consumers with the backlog limit lowered to 3; (b) default-schedule sweep at the real limit 1000 over key-frame spacings, phases and resume points; distinct = distinct (scenario, stalled record, max backlog) outcomes"
 	rep.Assumptions = []string{"sequentially consistent memory", "limit lowered to 3 through the overlay export for part (a); the comparison logic is the unchanged source"}
+	runner.FineP = 1 // statement-level points in the files of fine.txt
+	if rep.Thorough() {
+		runner.FineP = 2
+	}
 	runner.Run(rep, scenarios(rep.Thorough()))
 	realLimit(rep)
 	rep.Finish()
